@@ -59,3 +59,11 @@ impl ContextStatistics {
             final(self).bytes() == old(self).bytes(),
             exists|now: u64| #[trigger] wall_clock_reading(now as nat) && final(self).last_read_ms() == now,
 //@ end
+
+// A tunnel that has carried nothing yet is as old as its creation: the statistics start with "last data = now", so it
+// cannot be closed for idleness before a full period has passed (C13 "only then").
+//@ contract ContextStatistics::default
+        ensures
+            ret.bytes() == 0, ret.frames() == 0,
+            exists|now: u64| #[trigger] wall_clock_reading(now as nat) && ret.last_read_ms() == now,
+//@ end
